@@ -735,3 +735,200 @@ Lemma store_ok_empty : store_ok ∅.
 Proof.
   intros rid. exists (new_manifest rid). split; [done|]. split; [constructor|done].
 Qed.
+
+(* workloads without compaction: no hypothesis on the variant *)
+Section run_nc.
+  Variable cov : delta → delta → Prop.
+  Hypothesis cov_refl : ∀ d, cov d d.
+  Variable c : pcfg.
+  Definition op_nc (op : wop) : Prop := match op with WCompact _ _ => False | _ => True end.
+
+  Lemma run_inv_nc ops s conf0 :
+    Forall op_nc ops → Inv cov (w_store (s_w s)) (conf0 ++ ps_conf (s_p s)) →
+    let s' := fold_left (wstep c) ops s in
+    Inv cov (w_store (s_w s')) (conf0 ++ ps_conf (s_p s')).
+  Proof.
+    revert s. induction ops as [|op ops IH]; intros s Hall HI; simpl; [done|].
+    inversion Hall as [|? ? Hop Hall']; subst. apply IH; [done|].
+    destruct op as [d|sz|now sz]; simpl; [| |done].
+    - unfold push. by destruct (_ <=? _).
+    - destruct (flush (pc_var c) (s_p s) sz (s_w s)) as [[p w] r] eqn:Hf. simpl.
+      destruct (flush_inv cov cov_refl _ _ _ _ _ _ _ (conf0 ++ ps_conf (s_p s)) Hf) as [H1 H2].
+      specialize (H2 HI). rewrite H1, app_assoc. by destruct r.
+  Qed.
+End run_nc.
+
+(* ---------- the C12 lemmas ---------- *)
+Definition same_key (d' d : delta) : Prop := d_key d' = d_key d.
+Lemma same_key_step v e d : d_key e = d_key d →
+  d_key (absorb_val v e d) = d_key d ∧ same_key (absorb_val v e d) d ∧
+  ∀ d0, same_key e d0 → same_key (absorb_val v e d) d0.
+Proof.
+  intros Hk. unfold absorb_val, same_key.
+  destruct (v_merge v); simpl; [repeat split; auto|].
+  destruct (d_time e <? d_time d); repeat split; auto; congruence.
+Qed.
+
+Lemma refs_complete_lemma c rid st0 ops io :
+  v_strict_get (pc_var c) = true → store_ok st0 →
+  store_ok (w_store (s_w (run_persist c rid st0 ops io))).
+Proof.
+  intros Hv H0. apply (inv_store_ok same_key _ []). unfold run_persist.
+  apply (run_ok_from same_key (λ d, eq_refl)); try done.
+  - unfold same_key; congruence.
+  - intros ds d. apply compact_covers; [by intros|apply same_key_step].
+  - simpl. by apply store_ok_inv.
+Qed.
+
+Lemma gc_off_ops c ops : gc_off (pc_cc c) ops → Forall (op_gc_off c) ops.
+Proof. unfold gc_off. intros H. eapply Forall_impl; [exact H|]. intros [] K; exact K. Qed.
+
+Lemma confirmed_merge_lemma c rid rid' st0 ops io :
+  v_strict_get (pc_var c) = true → v_merge (pc_var c) = true →
+  store_ok st0 → gc_off (pc_cc c) ops →
+  let s := run_persist c rid st0 ops io in
+  ∃ rec, recover (w_store (s_w s)) rid' = Some rec ∧
+    ∀ d, In d (ps_conf (s_p s)) → ∃ d', In d' (r_deltas rec) ∧ represents d' d.
+Proof.
+  intros Hv Hm H0 Hgc s. apply (inv_recover represents).
+  apply (run_inv_from represents represents_refl represents_trans c Hv) with (conf0 := []).
+  - intros ds d. apply compact_covers; [apply represents_refl|]. intros e d0. by apply represents_step.
+  - by apply gc_off_ops.
+  - simpl. by apply store_ok_inv.
+Qed.
+
+Lemma confirmed_select_lemma c rid rid' st0 ops io :
+  v_strict_get (pc_var c) = true → v_merge (pc_var c) = false →
+  store_ok st0 → gc_off (pc_cc c) ops →
+  let s := run_persist c rid st0 ops io in
+  ∃ rec, recover (w_store (s_w s)) rid' = Some rec ∧
+    ∀ d, In d (ps_conf (s_p s)) → ∃ d', In d' (r_deltas rec) ∧ supersedes d' d.
+Proof.
+  intros Hv Hm H0 Hgc s. apply (inv_recover supersedes).
+  apply (run_inv_from supersedes supersedes_refl supersedes_trans c Hv) with (conf0 := []).
+  - intros ds d. apply compact_covers; [apply supersedes_refl|]. intros e d0. by apply supersedes_step.
+  - by apply gc_off_ops.
+  - simpl. by apply store_ok_inv.
+Qed.
+
+Lemma confirmed_verbatim_lemma c rid rid' st0 ops io :
+  store_ok st0 → no_compaction ops →
+  let s := run_persist c rid st0 ops io in
+  ∃ rec, recover (w_store (s_w s)) rid' = Some rec ∧
+    ∀ d, In d (ps_conf (s_p s)) → In d (r_deltas rec).
+Proof.
+  intros H0 Hnc s.
+  destruct (inv_recover eq (w_store (s_w s)) (ps_conf (s_p s)) rid') as (rec & Hr & Hin).
+  - apply (run_inv_nc eq (λ d, eq_refl) c) with (conf0 := []).
+    + eapply Forall_impl; [exact Hnc|]. by intros [].
+    + simpl. by apply store_ok_inv.
+  - exists rec. split; [done|]. intros d Hd. destruct (Hin d Hd) as (d' & H1 & ->). done.
+Qed.
+
+(* a flush that returns Err leaves the coordinator as it was (repaired code) *)
+Lemma failed_flush_lemma v p sz (w : world obj) p' w' :
+  v_restore v = true → flush v p sz w = (p', w', FErr) → p' = p.
+Proof.
+  intros Hv. unfold flush. rewrite Hv. destruct (ps_buf p); [discriminate|].
+  destruct (load_or_create _ _) as [w1 [m| |]]; try (intros [= <- <-]; done); try discriminate.
+  unfold alloc_id. destruct (negb (man_ok _)); [discriminate|].
+  destruct (st_put _ _ _) as [w2 [[]| |]]; try (intros [= <- <-]; done); try discriminate.
+  destruct (negb (man_ok _)); [discriminate|].
+  destruct (save _ _) as [w3 [[]| |]]; try (intros [= <- <-]; done); discriminate.
+Qed.
+
+(* ---------- witnesses ---------- *)
+Definition lwwv (val t r : N) : rvalue :=
+  RV (CLww (Lww (Some [val]) (Stamp t r) false)) None None (Stamp t r) None.
+Definition dlt (k val t r : N) : delta := Delta [k] (lwwv val t r) r.
+Definition ex_pcfg (v : variant) : pcfg := PCfg v 1048576 (CCfg 1000 2 5 1000).
+Definition sig_of (d : delta) : N * N := (hd 0 (d_key d), d_time d).
+
+(* as found: a flush whose manifest get fails returns Err and the accepted delta is gone *)
+Definition w1_ops : list wop := [WPush (dlt 1 7 1 1); WFlush 100].
+Definition w1_io : list outcome := [OErr ENone].
+Lemma as_found_flush_drops_buffer :
+  let s := run_persist (ex_pcfg as_found) 1 ∅ w1_ops w1_io in
+  s_res s = [RFlush FErr 0; RPush true] ∧ w_crashed (s_w s) = false ∧
+  ps_acc (s_p s) = [dlt 1 7 1 1] ∧ ps_conf (s_p s) = [] ∧ ps_buf (s_p s) = [].
+Proof. vm_compute. repeat split. Qed.
+Lemma repaired_flush_keeps_buffer_example :
+  let s := run_persist (ex_pcfg repaired) 1 ∅ w1_ops w1_io in
+  s_res s = [RFlush FErr 1; RPush true] ∧ ps_buf (s_p s) = [dlt 1 7 1 1].
+Proof. vm_compute. repeat split. Qed.
+
+(* as found: a transient get error inside compaction drops a confirmed segment *)
+Definition w2_ops : list wop :=
+  [WPush (dlt 1 7 1 1); WFlush 100; WPush (dlt 2 8 2 1); WFlush 100; WCompact 0 100].
+Definition w2_io : list outcome :=
+  [OOk; OOk; OOk; OOk; OOk; OOk; OOk; OOk; OOk; OErr ENone; OOk; OOk; OOk; OOk; OOk; OOk].
+Lemma as_found_compaction_get_error :
+  let s := run_persist (ex_pcfg as_found) 1 ∅ w2_ops w2_io in
+  w_crashed (s_w s) = false ∧ w_io (s_w s) = [] ∧
+  map sig_of (ps_conf (s_p s)) = [(1, 1); (2, 2)] ∧
+  match recover (w_store (s_w s)) 1 with
+  | Some rec => map sig_of (r_deltas rec) = [(2, 2)]
+  | None => False
+  end.
+Proof. vm_compute. repeat split. Qed.
+Lemma repaired_compaction_get_error :
+  let s := run_persist (ex_pcfg repaired) 1 ∅ w2_ops w2_io in
+  s_res s = [RCompact CErr; RFlush (FOk 1) 0; RPush true; RFlush (FOk 1) 0; RPush true] ∧
+  match recover (w_store (s_w s)) 1 with
+  | Some rec => map sig_of (r_deltas rec) = [(1, 1); (2, 2)]
+  | None => False
+  end.
+Proof. vm_compute. repeat split. Qed.
+
+(* non-vacuity: a workload with a failed put (torn), a retried flush, a compaction and a
+   crash in the middle of the deletes *)
+Definition w3_ops : list wop :=
+  [WPush (dlt 1 7 1 1); WFlush 100;
+   WPush (dlt 2 8 2 1); WPush (dlt 1 9 3 2); WFlush 100; WFlush 100;
+   WCompact 0 100].
+Definition w3_io : list outcome :=
+  [OOk; OOk; OOk; OOk;          (* flush 1 *)
+   OOk; OErr ETorn;              (* flush 2: the segment put is torn *)
+   OOk; OOk; OOk; OOk;           (* flush 3: retried, succeeds *)
+   OOk; OOk; OOk; OOk; OOk; OOk; OOk].  (* compaction; the stream ends before the 2nd delete *)
+Lemma example_run :
+  let s := run_persist (ex_pcfg repaired) 1 ∅ w3_ops w3_io in
+  s_res s = [RCompact CCrash; RFlush (FOk 2) 0; RFlush FErr 2; RPush true; RPush true;
+             RFlush (FOk 1) 0; RPush true] ∧
+  w_crashed (s_w s) = true ∧
+  map sig_of (ps_conf (s_p s)) = [(1, 1); (2, 2); (1, 3)] ∧
+  match recover (w_store (s_w s)) 1 with
+  | Some rec => map sig_of (r_deltas rec) = [(2, 2); (1, 3)]
+  | None => False
+  end ∧
+  gc_off (pc_cc (ex_pcfg repaired)) w3_ops.
+Proof.
+  vm_compute. repeat split; try done. repeat constructor; vm_compute; discriminate.
+Qed.
+
+(* crash / restart histories *)
+Lemma incarnations_lemma c rid st0 hist rid' :
+  v_strict_get (pc_var c) = true → v_merge (pc_var c) = true →
+  store_ok st0 → Forall (λ h, gc_off (pc_cc c) (fst h)) hist →
+  let '(st, conf) := run_incarnations c rid st0 hist in
+  ∃ rec, recover st rid' = Some rec ∧
+    ∀ d, In d conf → ∃ d', In d' (r_deltas rec) ∧ represents d' d.
+Proof.
+  intros Hv Hm H0 Hgc.
+  assert (H : ∀ conf0, Inv represents st0 conf0 →
+    Inv represents (fst (run_incarnations c rid st0 hist)) (conf0 ++ snd (run_incarnations c rid st0 hist))).
+  { clear H0. revert st0. induction hist as [|[ops io] hist IH]; intros st0 conf0 HI; simpl.
+    - by rewrite app_nil_r.
+    - inversion Hgc as [|? ? Hg1 Hg2]; subst. simpl in Hg1.
+      set (s := run_persist c rid st0 ops io).
+      specialize (IH Hg2 (w_store (s_w s)) (conf0 ++ ps_conf (s_p s))).
+      destruct (run_incarnations c rid (w_store (s_w s)) hist) as [st conf] eqn:E. simpl in *.
+      rewrite app_assoc. apply IH.
+      apply (run_inv_from represents represents_refl represents_trans c Hv).
+      + intros ds d. apply compact_covers; [apply represents_refl|]. intros e d0. by apply represents_step.
+      + by apply gc_off_ops.
+      + simpl. by rewrite app_nil_r. }
+  specialize (H [] (store_ok_inv _ _ H0)).
+  destruct (run_incarnations c rid st0 hist) as [st conf]. simpl in H.
+  by apply (inv_recover represents).
+Qed.
